@@ -62,6 +62,7 @@ def judge_from_opgraph(graph, L, qd, opmap, poly, rec, magsum=None):
         require(A.shape == (d, d, len(layers[l]), len(layers[l + 1])), 'tensor shape does not match the layer widths', site=l, shape=A.shape)
         require(len(mpo.qD[l]) == A.shape[2] and len(mpo.qD[l + 1]) == A.shape[3], 'charge list length differs from the bond dimension')
         ref = np.zeros(A.shape, dtype=complex)
+        mag = np.zeros(A.shape)
         for i in range(A.shape[2]):
             nid = at[(l, i)]
             for eid in graph.nodes[nid].eids[1]:
@@ -69,7 +70,9 @@ def judge_from_opgraph(graph, L, qd, opmap, poly, rec, magsum=None):
                 j = nid_map[e.nids[1]][1]
                 for oid, c in e.opics:
                     ref[:, :, i, j] += c * opmap[oid]
-        scale = max(np.max(np.abs(ref)), 1.0)
+                    mag[:, :, i, j] += abs(c) * np.abs(opmap[oid])
+        # rounding scale = sum of the magnitudes of the summands (coefficients such as 1e5 and -1e5 may cancel)
+        scale = max(np.max(mag), 1.0)
         require(np.max(np.abs(A - ref)) <= 1e-12 * scale, 'tensor slice differs from the sum of the edges between the mapped nodes', site=l)
         require(mpo_mask_violation(A, mpo.qd, mpo.qD[l], mpo.qD[l + 1]) == 0, 'tensor not block sparse under the node charges', site=l)
     M = mpo_to_mat(mpo.A)
